@@ -234,7 +234,7 @@ def run(tier, seed):
     plan = [('S45', (M.DEFAULT, M.MERGETOOL, ('use-local', None, None, True), ('inline', None, 'clear-all', True), ('inline', 'use-remote', 'remove', True)), 3 if tier == 'quick' else 1),
             ('Sjson', (M.DEFAULT,), 4 if tier == 'quick' else 1)]
     plan += [('S45#focus:outputs', (M.DEFAULT, M.MERGETOOL, ('inline', None, 'remove', True)), 1), ('S45#focus:source', (M.DEFAULT, M.MERGETOOL), 2),
-             ('S45#focus:meta', (M.DEFAULT, M.MERGETOOL), 2), ('S45#focus:attachments', (M.DEFAULT,), 1), ('S45#outruns2', (M.DEFAULT,), 1), ('S45#focus:cellmix2', (M.DEFAULT,), 1)]
+             ('S45#focus:meta', (M.DEFAULT, M.MERGETOOL), 2), ('S45#focus:attachments', (M.DEFAULT,), 1), ('S45#outruns2', (M.DEFAULT,), 1), ('S45#focus:cellmix2', (M.DEFAULT,), 1), ('S44#focus:upgrade', (M.DEFAULT, M.MERGETOOL), 1)]
     if tier == 'thorough':
         plan += [('S44', tuple(M.KEY_CONFIGS), 1), ('Ssim', (M.DEFAULT, M.MERGETOOL), 1), ('S45#cellruns3', (M.DEFAULT, M.MERGETOOL), 1)]
     for sname, cfgs, step in plan:
